@@ -10,16 +10,17 @@ HEADER = ("From Coq Require Import ZArith NArith List Bool.\n"
           "From XV Require Import core.Value model.Hash model.Serial corr.SerialCorr.\nImport ListNotations.\n")
 
 
-def cls_index(export, qualname):
+def cls_index(export, module, qualname):
+    """classes are identified by module AND qualified name (two modules may define classes of the same name)"""
     for i, c in enumerate(export["classes"]):
-        if c["py"] == qualname:
+        if c["py"] == qualname and c.get("pymod") == module:
             return i
     return 999
 
 
 def g_def(export, d):
     fields = glist(f"({gbytes(k)}%N, {identgen.g_value(v)})" for k, v in d["fields"])
-    return (f"{{| d_id := {gnat(d['id'])}; d_cls := {gnat(cls_index(export, d['typename'].split('.')[-1]))}; "
+    return (f"{{| d_id := {gnat(d['id'])}; d_cls := {gnat(cls_index(export, d['pymod'], d['pytype']))}; "
             f"d_fields := {fields}; d_pre := {glist(gnat(p) for p in d['pre'])}; "
             f"d_init := {glist(gnat(p) for p in d['init'])}; d_meta := {gopt(d['meta'], gbool)}; "
             f"d_task := {gopt(d['task'], gnat)} |}}")
@@ -27,7 +28,7 @@ def g_def(export, d):
 
 def g_rnode(export, x):
     fields = glist(f"({gbytes(k)}%N, {identgen.g_value(v)})" for k, v in x["fields"])
-    return (f"{{| n_cls := {gnat(cls_index(export, x['pycls']))}; n_fields := {fields}; n_meta := {gopt(x['meta'], gbool)}; "
+    return (f"{{| n_cls := {gnat(cls_index(export, x['pymod'], x['pycls']))}; n_fields := {fields}; n_meta := {gopt(x['meta'], gbool)}; "
             f"n_task := {gopt(x['task'], gnat)}; n_pre := {glist(gnat(p) for p in x['pre'])}; "
             f"n_init := {glist(gnat(p) for p in x['init'])} |}}")
 
@@ -98,7 +99,7 @@ def oracle(c, case, r):
         if rel is None:
             c.violation("C12:node-not-reloaded", "a saved configuration has no reloaded counterpart", ctx)
             continue
-        if e["classes"][orig["cls"]]["py"] != rel["pycls"]:
+        if (e["classes"][orig["cls"]]["py"], e["classes"][orig["cls"]].get("pymod")) != (rel["pycls"], rel.get("pymod")):
             c.violation("C12:class-changed", "class differs after reload", dict(ctx, got=rel["pycls"]))
         mo, mr = as_map(orig["fields"]), as_map(rel["fields"])
         if mo != mr:
@@ -151,6 +152,21 @@ def oracle(c, case, r):
     if r["defs_state_dict"] != r["defs"] or r["defs_save"] != r["defs"]:
         c.violation("C12:paths-write-different-definitions", "state_dict / save write other definitions than __get_objects__",
                     dict(desc=desc, root=case["root"]))
+    # the parameter file of a job (what run.py reads): same definitions, and exactly the configured tags
+    if "params_error" in r:
+        c.violation("C12:parameter-file-raises", "writing the parameter file raised: " + r["params_error"][:80],
+                    dict(desc=desc, root=case["root"]))
+    elif "defs_params" in r:
+        c.count("params-file:tags=%d" % len(r["tags"]))
+        if any(v in (0, "", False, 0.0) for v in r["tags"].values()):
+            c.count("params-file:falsy-tag")
+        if r["defs_params"] != r["defs"]:
+            c.violation("C12:parameter-file-definitions-differ", "the parameter file holds other definitions than __get_objects__",
+                        dict(desc=desc, root=case["root"]))
+        if r["params_tags"] != r["tags"] or [type(v).__name__ for _, v in sorted(r["params_tags"].items())] != \
+                [type(v).__name__ for _, v in sorted(r["tags"].items())]:
+            c.violation("C12:parameter-file-tags-differ", "the tags written to the parameter file are not the configured tags",
+                        dict(desc=desc, root=case["root"], written=r["params_tags"], configured=r["tags"]))
 
 
 def run(c: Check):
